@@ -5,6 +5,8 @@ A line that does not parse yields `{"err":"bad-op"}` — never a default.
 -/
 import OsyrisModel
 import Driver.Geom
+import Driver.GeomMap
+import Driver.Opts
 open Lean Osyris
 
 def handle (line : String) : Json :=
@@ -12,6 +14,12 @@ def handle (line : String) : Json :=
   | .error _ => errJson .badOp
   | .ok j =>
     match handleGeom j with
+    | some r => r
+    | none =>
+    match handleMap j with
+    | some r => r
+    | none =>
+    match handleOpts j with
     | some r => r
     | none =>
     match getStr? j "engine" with
@@ -63,6 +71,14 @@ def handle (line : String) : Json :=
         Json.mkObj [("model", enc (npUnit Generated.tables name dt su args k)),
                     ("spec", enc (specUnit cls name args k))]
       | none => errJson .badOp
+    | some "binplan" =>
+      -- C07: kernel and conversion factor `_binary_op` settles on for (operator, left unit, right unit)
+      match (getStr? j "name").bind BinOp.fromString?, (getField? j "lu").bind U.fromJson?, (getField? j "ru").bind U.fromJson? with
+      | some op, some lu, some ru =>
+        match binaryPlan op lu ru with
+        | .ok p => Json.mkObj [("np", Json.str p.npName), ("ratio", ratToJson p.ratio), ("converted", Json.bool p.converted)]
+        | .error e => errJson e
+      | _, _, _ => errJson .badOp
     | some "uexpr" =>
       -- C08: the unit a unit-expression tree denotes (atoms resolved by pint, composition by the model)
       match (getField? j "expr").bind UExpr.fromJson? with
